@@ -656,6 +656,9 @@ class NFA(fa.FA):
         }
 
         for state_a, transitions in self.transitions.items():
+            if state_a not in self.states:
+                # Transitions listed for something that is not a state
+                continue
             for symbol, states in transitions.items():
                 for state_b in states:
                     new_transitions[state_b].setdefault(symbol, set()).add(state_a)
@@ -1008,6 +1011,9 @@ class NFA(fa.FA):
         """
 
         for state_a, transitions in old_transition_dict.items():
+            if state_a not in state_map_dict:
+                # Transitions listed for something that is not a state
+                continue
             for symbol, states in transitions.items():
                 new_transition_dict[state_map_dict[state_a]][symbol] = {
                     state_map_dict[state_b] for state_b in states
